@@ -1,7 +1,7 @@
 (* Extraction of the executable model to OCaml (zarith-backed Z). *)
 From Coq Require Import ZArith List.
 From Coq Require Import ExtrOcamlBasic ExtrOcamlZBigInt.
-From PlonkV Require Import Base.Fr Gates.Gate Gates.CS Composer.State Composer.Components Alg.Poly Alg.FFT Protocol.Kzg Protocol.Capacity.
+From PlonkV Require Import Base.Fr Gates.Gate Gates.CS Composer.State Composer.Components Alg.Poly Alg.FFT Protocol.Kzg Protocol.Capacity Protocol.Keccak Protocol.G1 Protocol.RefVerifier Protocol.Blinding.
 Extraction Language OCaml.
 Extraction "model.ml"
   r of_Z val fadd fsub fmul fopp finv feqb
@@ -18,4 +18,6 @@ Extraction "model.ml"
   fft ifft coset_fft coset_ifft domain_log domain_size domain_gen size_inv
   parallel_butterfly butterfly_range vanishing_eval lagrange_all interp_eval batch_inversion fpow_nat
   commit commit_guard mkOpening batch_all batch_check_u aggregate_witness flatten srs_powers
-  direct_route_ok compressed_route_ok max_constraints.
+  direct_route_ok compressed_route_ok max_constraints
+  transcript_new append_message append_u64 challenge_bytes keccak_f_bytes
+  ref_verify g1_decompress g1_mul g1_add g1_eqb g1_compress g1_lin wire_opening.
